@@ -134,3 +134,101 @@ package rpc
 //@     requires req != nil && len(req.Upgrade) == 0 && len(req.ServiceMethod) == 0 && len(req.Args) == 0
 //@     loop 1: invariant offset <= length && sub(req.Upgrade, data) && sub(req.ServiceMethod, data) && sub(req.Args, data)
 //@     ensures implies(err == nil, sub(req.Upgrade, data) && sub(req.ServiceMethod, data) && sub(req.Args, data))
+
+//@ func (*pbResponse).Unmarshal
+//@   case safety:
+//@     property C08 C11
+//@     requires res != nil && len(res.Error) == 0 && len(res.Reply) == 0
+//@     loop 1: invariant offset <= length && sub(res.Error, data) && sub(res.Reply, data)
+//@     ensures implies(err == nil, sub(res.Error, data) && sub(res.Reply, data))
+
+//@ func (*request).Unmarshal
+//@   case safety:
+//@     property C08 C11
+//@     requires req != nil && len(req.Upgrade) == 0 && len(req.ServiceMethod) == 0 && len(req.Args) == 0
+//@     ensures implies(err == nil, sub(req.Upgrade, data) && sub(req.ServiceMethod, data) && sub(req.Args, data))
+
+//@ func (*response).Unmarshal
+//@   case safety:
+//@     property C08 C11
+//@     requires res != nil && len(res.Error) == 0 && len(res.Reply) == 0
+//@     ensures implies(err == nil, sub(res.Error, data) && sub(res.Reply, data))
+
+// ---- protobuf response: field 1 varint Seq (0x08), 2 string Error (0x12), 3 bytes Reply (0x1a) ----
+//@ pure pbResB(r *pbResponse, k int) uint64 = ite(k >= 1 && r.Seq != 0, 1+vsize(r.Seq), 0) +
+//@      ite(k >= 2, fieldLen(uint64(len(r.Error))), 0) + ite(k >= 3, fieldLen(uint64(len(r.Reply))), 0)
+//@ pure pbResWire(b []byte, r *pbResponse) bool = pbVarintField(b, 0, 0x08, r.Seq) && pbBytesField(b, pbResB(r,1), 0x12, r.Error) &&
+//@      pbBytesField(b, pbResB(r,2), 0x1a, r.Reply)
+//@ pure pbResSize(r *pbResponse) uint64 = 33 + uint64(len(r.Error)) + uint64(len(r.Reply))
+
+//@ func (*pbResponse).Size
+//@   property C07
+//@   requires res != nil
+//@   ensures uint64(n) == pbResSize(res)
+
+//@ func (*pbResponse).MarshalTo
+//@   property C07 C01 C06
+//@   requires res != nil
+//@   requires arr(buf) != arr(res.Error) && arr(buf) != arr(res.Reply)
+//@   ensures implies(uint64(cap(buf)) < pbResSize(res), result == 0 && err != nil)
+//@   ensures implies(uint64(cap(buf)) >= pbResSize(res), err == nil && uint64(result) == pbResB(res, 3) && pbResWire(buf, res))
+//@   modifies buf[0:pbResSize(res)]
+//@   loop 1, 2, 3: unroll 10
+//@   cut if.done#1 frame buf[0:]: offset == pbResB(res, 1) && offset <= 11 && pbVarintField(buf, 0, 0x08, res.Seq)
+//@   cut if.done#2 frame buf[prev(offset):]: offset == pbResB(res, 2) && prev(offset) <= offset &&
+//@       offset <= 22 + uint64(len(res.Error)) && pbBytesField(buf, prev(offset), 0x12, res.Error)
+//@   cut if.done#3 frame buf[prev(offset):]: offset == pbResB(res, 3) && prev(offset) <= offset &&
+//@       offset <= 33 + uint64(len(res.Error)) + uint64(len(res.Reply)) && pbBytesField(buf, prev(offset), 0x1a, res.Reply)
+
+//@ func (*pbRequest).Marshal
+//@   property C07
+//@   requires req != nil
+//@   ensures err == nil && fresh(result) && uint64(len(result)) == pbReqB(req, 4) && pbReqWire(result, req)
+
+//@ func (*pbResponse).Marshal
+//@   property C07
+//@   requires res != nil
+//@   ensures err == nil && fresh(result) && uint64(len(result)) == pbResB(res, 3) && pbResWire(result, res)
+
+// ---- "code" header format: varint Seq, then length-prefixed Upgrade, ServiceMethod, Args (no tags, always present) ----
+//@ pure codeLP(n uint64) uint64 = vsize(n) + n
+//@ pure codeReqB(r *request, k int) uint64 = vsize(r.Seq) + ite(k >= 2, codeLP(uint64(len(r.Upgrade))), 0) +
+//@      ite(k >= 3, codeLP(uint64(len(r.ServiceMethod))), 0) + ite(k >= 4, codeLP(uint64(len(r.Args))), 0)
+//@ pure codeReqWire(b []byte, r *request) bool = isVarintAt(b, 0, r.Seq) && isLP(b, codeReqB(r,1), r.Upgrade) &&
+//@      isLP(b, codeReqB(r,2), r.ServiceMethod) && isLP(b, codeReqB(r,3), r.Args)
+//@ pure codeReqSize(r *request) uint64 = 40 + uint64(len(r.Upgrade)) + uint64(len(r.ServiceMethod)) + uint64(len(r.Args))
+
+//@ func (*request).Marshal
+//@   property C07 C01
+//@   requires req != nil
+//@   requires arr(buf) != arr(req.Upgrade) && arr(buf) != arr(req.ServiceMethod) && arr(buf) != arr(req.Args)
+//@   ensures err == nil && uint64(len(result)) == codeReqB(req, 4) && codeReqWire(result, req)
+//@   ensures implies(uint64(cap(buf)) >= codeReqSize(req), arr(result) == arr(buf) && off(result) == off(buf))
+//@   ensures implies(uint64(cap(buf)) < codeReqSize(req), fresh(result))
+//@   modifies buf[0:codeReqSize(req)]
+//@   loop 1, 2, 3, 4: unroll 10
+//@   cut if.done#2 frame buf[0:]: offset == codeReqB(req, 1) && n == codeLP(uint64(len(req.Upgrade))) && offset <= 10 &&
+//@       isVarintAt(buf, 0, req.Seq) && isLP(buf, offset, req.Upgrade)
+//@   cut if.done#3 frame buf[offset:]: offset == codeReqB(req, 2) && n == codeLP(uint64(len(req.ServiceMethod))) &&
+//@       offset <= 20 + uint64(len(req.Upgrade)) && isLP(buf, offset, req.ServiceMethod)
+//@   cut if.done#4 frame buf[offset:]: offset == codeReqB(req, 3) && n == codeLP(uint64(len(req.Args))) &&
+//@       offset <= 30 + uint64(len(req.Upgrade)) + uint64(len(req.ServiceMethod)) && isLP(buf, offset, req.Args)
+
+//@ pure codeResB(r *response, k int) uint64 = vsize(r.Seq) + ite(k >= 2, codeLP(uint64(len(r.Error))), 0) +
+//@      ite(k >= 3, codeLP(uint64(len(r.Reply))), 0)
+//@ pure codeResWire(b []byte, r *response) bool = isVarintAt(b, 0, r.Seq) && isLP(b, codeResB(r,1), r.Error) && isLP(b, codeResB(r,2), r.Reply)
+//@ pure codeResSize(r *response) uint64 = 30 + uint64(len(r.Error)) + uint64(len(r.Reply))
+
+//@ func (*response).Marshal
+//@   property C07 C01 C06
+//@   requires res != nil
+//@   requires arr(buf) != arr(res.Error) && arr(buf) != arr(res.Reply)
+//@   ensures err == nil && uint64(len(result)) == codeResB(res, 3) && codeResWire(result, res)
+//@   ensures implies(uint64(cap(buf)) >= codeResSize(res), arr(result) == arr(buf) && off(result) == off(buf))
+//@   ensures implies(uint64(cap(buf)) < codeResSize(res), fresh(result))
+//@   modifies buf[0:codeResSize(res)]
+//@   loop 1, 2, 3: unroll 10
+//@   cut if.done#2 frame buf[0:]: offset == codeResB(res, 1) && n == codeLP(uint64(len(res.Error))) && offset <= 10 &&
+//@       isVarintAt(buf, 0, res.Seq) && isLP(buf, offset, res.Error)
+//@   cut if.done#3 frame buf[offset:]: offset == codeResB(res, 2) && n == codeLP(uint64(len(res.Reply))) &&
+//@       offset <= 20 + uint64(len(res.Error)) && isLP(buf, offset, res.Reply)
